@@ -58,6 +58,8 @@ inductive Expr where
   | lor (a b : Expr)                       -- a or b    (also any([..]))
   | ite (c a b : Expr)                     -- a if c else b
   | sel (arg : Expr) (key : Int) (e rest : Expr)  -- select_with(arg, {key: e, ...rest}) ; rest = next entry or default
+  | conv (a : Expr) (t : Ty)               -- implicit conversion of a result (or if-expression / select_with arm)
+                                           --   that drives a target of type t (`target <<= a`)
   deriving Repr, Inhabited
 
 inductive Err where
@@ -226,6 +228,21 @@ def truthy : Ty → Bool
   | .bit | .bool | .bv _ | .uns _ | .sgn _ => true
   | .int => false
 
+/-- implicit conversion on assignment: value preserving widening within one signedness, Unsigned into a strictly
+    wider Signed, Unsigned / Signed into a BitVector of the same width and back (bit pattern) -/
+def convTy (src tgt : Ty) : Except Err Ty :=
+  match src, tgt with
+  | .uns wa, .uns w => if wa ≤ w then .ok (.uns w) else .error .width
+  | .sgn wa, .sgn w => if wa ≤ w then .ok (.sgn w) else .error .width
+  | .uns wa, .sgn w => if wa < w then .ok (.sgn w) else .error .width
+  | .uns wa, .bv w => if wa = w then .ok (.bv w) else .error .width
+  | .sgn wa, .bv w => if wa = w then .ok (.bv w) else .error .width
+  | .bv wa, .bv w => if wa = w then .ok (.bv w) else .error .width
+  | .bv wa, .uns w => if wa = w then .ok (.uns w) else .error .width
+  | .bv wa, .sgn w => if wa = w then .ok (.sgn w) else .error .width
+  | .bit, .bit => .ok .bit
+  | _, _ => .error .kind
+
 def typeOf : Expr → Except Err Ty
   | .port _ t => match t with
       | .bit => .ok .bit
@@ -323,6 +340,9 @@ def typeOf : Expr → Except Err Ty
             (if fits targ key then (if te = tr ∧ te ≠ .int then .ok te else .error .kind) else .error .intRange)
           else .error .kind
       | _, _, _ => .error .sub
+  | .conv a t => match typeOf a with
+      | .ok ta => convTy ta t
+      | _ => .error .sub
 
 /-! ## the documented value -/
 
@@ -382,6 +402,15 @@ def evalSpec (e : Expr) (env : Env) : Val :=
   | .ite c a b => if (evalSpec c env).tru then evalSpec a env else evalSpec b env
   | .sel arg key e rest =>
       if (evalSpec arg env).num == key then evalSpec e env else evalSpec rest env
+  | .conv a t =>
+      -- the numeric value is preserved (zero extension of Unsigned, sign extension of Signed); to / from a
+      -- BitVector the bit pattern is preserved
+      match tyOr (typeOf a), t with
+      | .bit, _ => evalSpec a env
+      | .uns _, .bv _ => .n (evalSpec a env).num
+      | ta, .bv _ => .n (pat ta (evalSpec a env).num)
+      | .bv w, .sgn _ => .n (wrapS w (evalSpec a env).num)
+      | _, _ => .n (evalSpec a env).num
 
 /-- the documented domain: no division by zero anywhere in the expression (hardware evaluates every
     sub-expression, also those of branches not taken) -/
@@ -396,7 +425,7 @@ def defined (e : Expr) (env : Env) : Bool :=
   | .bitop _ a b | .cmp _ a b | .shl a b | .shr a b | .concat a b | .indexRt a b | .land a b | .lor a b =>
       defined a env && defined b env
   | .inv a | .neg a | .abs a | .index a _ | .slice a _ _ | .asSgn a | .asUns a | .asBv a | .resize a _
-  | .truth a | .lnot a => defined a env
+  | .truth a | .lnot a | .conv a _ => defined a env
   | .ite c a b => defined c env && defined a env && defined b env
   | .sel arg _ e rest => defined arg env && defined e env && defined rest env
 
@@ -517,6 +546,17 @@ def lower (e : Expr) : VExpr :=
   | .lor a b => .bin .or (toBool (tyOr (typeOf a)) (lower a)) (toBool (tyOr (typeOf b)) (lower b))
   | .ite c a b => .ite (toBool (tyOr (typeOf c)) (lower c)) (lower a) (lower b)
   | .sel arg key e rest => .sel (lower arg) (litV (tyOr (typeOf arg)) key) (lower e) (lower rest)
+  | .conv a t =>
+      -- VhdlScope.format_cast: the value string wrapped in the casts needed to drive the target
+      match tyOr (typeOf a), t with
+      | .uns wa, .uns w => if wa = w then lower a else .resize (lower a) w
+      | .sgn wa, .sgn w => if wa = w then lower a else .resize (lower a) w
+      | .uns _, .sgn w => .conv .sgn (.conv .slv (.resize (lower a) w))   -- resize on the UNSIGNED value: zero extension
+      | .uns _, .bv _ => .conv .slv (lower a)
+      | .sgn _, .bv _ => .conv .slv (lower a)
+      | .bv _, .uns _ => .conv .uns (lower a)
+      | .bv _, .sgn _ => .conv .sgn (lower a)
+      | _, _ => lower a
 
 /-! ## numeric_std / std_logic_1164 on defined values -/
 
